@@ -103,6 +103,78 @@ def field_chain(n):
             return None
 
 
+def _strip_generics(t):
+    out, depth = [], 0
+    for ch in t:
+        if ch == '<':
+            depth += 1
+        elif ch == '>':
+            depth -= 1
+        elif depth == 0:
+            out.append(ch)
+    return ''.join(out)
+
+
+_NORM = {}
+
+
+def norm(path):
+    """canonical short form 'Type::method' / 'module::func' of a def-path:
+    `a::b::<impl x::Y<T>>::m` -> `Y::m`, `<x::Y as Tr>::m` -> `Y::m`, `a::b::f` -> `b::f`"""
+    if not path:
+        return path
+    r = _NORM.get(path)
+    if r is not None:
+        return r
+    s = path
+    i = s.find('<')
+    while i != -1 and (s.startswith('<impl ', i) or ' as ' in s[i:]):
+        depth, j = 0, i
+        while j < len(s):
+            if s[j] == '<':
+                depth += 1
+            elif s[j] == '>':
+                depth -= 1
+                if depth == 0:
+                    break
+            j += 1
+        inner = s[i + 1:j]
+        if inner.startswith('impl '):
+            inner = inner[5:]
+            if ' for ' in inner:
+                inner = inner.split(' for ', 1)[1]
+        else:
+            # split at top-level ' as '
+            d, k = 0, 0
+            cut = None
+            while k < len(inner):
+                if inner[k] == '<':
+                    d += 1
+                elif inner[k] == '>':
+                    d -= 1
+                elif d == 0 and inner.startswith(' as ', k):
+                    cut = k
+                    break
+                k += 1
+            if cut is not None:
+                inner = inner[:cut]
+        inner = _strip_generics(inner).strip().lstrip('&').replace('mut ', '').strip()
+        ty = inner.split('::')[-1]
+        s = s[:i] + ty + s[j + 1:]
+        i = s.find('<', i + len(ty))
+    s = _strip_generics(s)
+    parts = [x for x in s.split('::') if x]
+    r = '::'.join(parts[-2:])
+    _NORM[path] = r
+    return r
+
+
+def cq(n):
+    """normalised resolved callee of a call node ('Type::method')"""
+    c = callee(n)
+    return norm(c) if c else None
+
+
 def last_seg(path):
     return path.rsplit('::', 1)[-1] if path else path
 
@@ -249,3 +321,62 @@ def stmts_of(block):
 
 def unsemi(n):
     return n['e'] if n.get('k') == 'Semi' else n
+
+
+def walk_ctx(n, ctx=()):
+    """pre-order walk yielding (node, ctx): ctx is a tuple of enclosing control facts:
+       ('if', cond, True|False)  - inside then / else branch of an `if cond`
+       ('arm', match_node, arm)  - inside the body (or guard) of a match arm
+       ('closure', node), ('loop', node)"""
+    yield n, ctx
+    k = n.get('k')
+    if k == 'If':
+        yield from walk_ctx(n['c'], ctx)
+        yield from walk_ctx(n['t'], ctx + (('if', n['c'], True),))
+        if 'e' in n:
+            yield from walk_ctx(n['e'], ctx + (('if', n['c'], False),))
+        return
+    if k == 'Match':
+        yield from walk_ctx(n['x'], ctx)
+        for arm in n['arms']:
+            c2 = ctx + (('arm', n, arm),)
+            if 'g' in arm:
+                yield from walk_ctx(arm['g'], c2)
+            yield from walk_ctx(arm['b'], c2)
+        return
+    if k == 'Closure':
+        yield from walk_ctx(n['b'], ctx + (('closure', n),))
+        return
+    if k == 'Loop':
+        yield from walk_ctx(n['b'], ctx + (('loop', n),))
+        return
+    for c in children(n):
+        if 'k' in c:
+            yield from walk_ctx(c, ctx)
+        else:
+            # arm-like / field-init dicts
+            for cc in children(c):
+                yield from walk_ctx(cc, ctx)
+
+
+def conds(ctx):
+    """human-readable path condition"""
+    out = []
+    for c in ctx:
+        if c[0] == 'if':
+            out.append(('' if c[2] else '!') + '(' + show(c[1]) + ')')
+        elif c[0] == 'arm':
+            out.append('%s is %s' % (show(c[1]['x']), show(c[2]['pat'])) + (' if ' + show(c[2]['g']) if 'g' in c[2] else ''))
+    return out
+
+
+def match_table(m, value=lambda b: b):
+    """[(set of variant paths, arm)] for a Match node"""
+    return [(pat_variants(a['pat']), a) for a in m['arms']]
+
+
+def lit_int(n):
+    n = peel(n)
+    if n.get('k') == 'Lit' and isinstance(n.get('v'), dict) and 'int' in n['v']:
+        return n['v']['int']
+    return None
